@@ -88,7 +88,7 @@ def cases(spec, ctx):
         ln = rng.choice([1, 2, rng.randrange(1, 1 << 10), rng.randrange(1, 1 << 18), rng.randrange(1, 1 << 25)])
         qa = max(0, a - rng.choice([0, 1, rng.randrange(0, 1 << 12), rng.randrange(0, 1 << 20)]))
         qb = a + ln + rng.choice([0, 1, rng.randrange(0, 1 << 12), rng.randrange(0, 1 << 20)])
-        yield {"kind": "random", "i": [a, a + ln], "q": [qa, qb]}
+        yield {"kind": "random", "i": [a, a + ln], "q": [qa, qb], "form": rng.choice(["int", "int", "int", "int64"])}
     # (c2) wide queries (2^21 .. 2^28 bases) around a small interval that straddles a 2^17 / 2^20 / 2^23 / 2^26 boundary deep inside
     # the query: the interval's bin lives on a level whose interior bins the query's bin set has to enumerate completely
     for _ in range(nrand // 2):
@@ -111,6 +111,10 @@ def cases(spec, ctx):
         if idx % n == i:
             yield {"kind": "stored", "centre": c}
             yield {"kind": "query", "centre": c}
+    # (e) one big collection per shard (more children than any indexing threshold a collection could plausibly use), with and
+    # without variant collections among the sorted children, strict and relaxed windows around the first 2^17 boundaries
+    yield {"kind": "query-big", "n": rng.choice([510, 640, 900]) if i % 2 else rng.choice([140, 300, 520]), "nvar": i % 3,
+           "seed": rng.randrange(1 << 30)}
 
 
 def _nontrivial(s, e):
@@ -202,6 +206,12 @@ def run_case(case, ctx):
 
     if k == "random":
         (a, b), (qa, qb) = case["i"], case["q"]
+        if case.get("form") == "int64":
+            # coordinates taken out of a numpy array (signed 64 bit): the same answers as for Python ints
+            import numpy as np
+
+            a, b, qa, qb = np.int64(a), np.int64(b), np.int64(qa), np.int64(qb)
+            ctx.note(("form", "int64"), klass="int64-coordinates")
         ctx.note(("rand", a, b, qa, qb), nontrivial=_nontrivial(a, b) or _nontrivial(qa, qb), klass="random-pair")
         ab = _check_one(ctx, bins, a, b)
         qset = bins(qa, qb, fmt="bed", one=False)
@@ -232,6 +242,10 @@ def run_case(case, ctx):
     if k == "query":
         _query(case, ctx)
         _query_two_collections(case, ctx)
+        _query_sub_collections(case, ctx)
+        return
+    if k == "query-big":
+        _query_big(case, ctx)
         return
     from bcv.core import HarnessError
 
@@ -352,18 +366,120 @@ def _query_two_collections(case, ctx):
     if c - 120 < 1:
         return
 
-    def coll(side):
+    def coll(side, shared):
         s, e = (c - 90, c - 60) if side == "left" else (c + 30, c + 40)
-        return AnnotationCollection(genes=[GeneInterval([TranscriptInterval([s], [e], Strand.PLUS)], gene_id="g-" + side)], start=c - 120, end=c + 120)
+        genes = [GeneInterval([TranscriptInterval([s], [e], Strand.PLUS)], gene_id="g-" + side)]
+        if shared:      # a member both collections hold, in a bin of its own (it spans the boundary)
+            genes.append(GeneInterval([TranscriptInterval([c - 5], [c + 5], Strand.PLUS)], gene_id="g-shared"))
+        return AnnotationCollection(genes=genes, start=c - 120, end=c + 120)
 
-    for order in (("left", "right"), ("right", "left")):
-        cols = {side: coll(side) for side in order}
-        for qs, qe in ((c - 100, c + 100), (c - 119, c + 119)):
-            for side in order + order:      # asked twice: the second round sees whatever the first one left behind
-                res, exc = ctx.call(cols[side].query_by_position, qs, qe, completely_within=True)
-                got = None if exc is not None else sorted(g.gene_id for g in res.genes)
-                ctx.check("bin.query-e2e", got == ["g-" + side], key=("two-collections-same-window", "raised" if exc else "value"), centre=c, q=[qs, qe],
-                          order=list(order), asked=side, got=got, want=["g-" + side], exc=repr(exc)[:150] if exc else None)
+    for shared in (False, True):
+        for order in (("left", "right"), ("right", "left")):
+            cols = {side: coll(side, shared) for side in order}
+            # windows no other leg of this process has asked before (a shared cache entry is still in its first state)
+            w = (101, 118) if shared else (100, 119)
+            k = 0 if order[0] == "left" else 1
+            for qs, qe in ((c - w[0] - k, c + w[0]), (c - w[1], c + w[1] - k)):
+                for side in order + order:      # asked twice: the second round sees whatever the first one left behind
+                    res, exc = ctx.call(cols[side].query_by_position, qs, qe, completely_within=True)
+                    got = None if exc is not None else sorted(g.gene_id for g in res.genes)
+                    want = sorted(["g-" + side] + (["g-shared"] if shared else []))
+                    ctx.check("bin.query-e2e", got == want, key=("two-collections-same-window", "raised" if exc else "value"), centre=c, q=[qs, qe],
+                              order=list(order), asked=side, shared_member=shared, got=got, want=want, exc=repr(exc)[:150] if exc else None)
+
+
+def _query_sub_collections(case, ctx):
+    """Sub-collections of one collection obtained by identifier queries (one isoform each; the gene keeps its identifiers), each then asked
+    a strict window around its own isoform, in either order: the answer depends on the coordinates held by the collection that is asked."""
+    from inscripta.biocantor.gene import TranscriptInterval, GeneInterval, AnnotationCollection
+    from inscripta.biocantor.location import Strand
+
+    c = case["centre"]
+    far = (1 << 17) + 20
+    if c - far - 60 < 1:
+        return
+    spans = {"txL": (c - far - 30, c - far), "txR": (c + far, c + far + 30)}
+    for order in (("txL", "txR"), ("txR", "txL")):
+        txs = [TranscriptInterval([s], [e], Strand.PLUS, transcript_id=n, transcript_symbol=n) for n, (s, e) in spans.items()]
+        ac = AnnotationCollection(genes=[GeneInterval(txs, gene_id="g1", gene_symbol="g1")], start=max(0, c - far - 200), end=c + far + 200)
+        guids = {t.transcript_id: t.guid for t in txs}
+        for n in order:
+            sub, exc = ctx.call(ac.query_by_transcript_interval_guids, guids[n])
+            if exc is not None or [t.transcript_id for g in sub.genes for t in g.transcripts] != [n]:
+                ctx.check("bin.query-e2e", False, key=("sub-collection", "id-query"), centre=c, isoform=n, exc=repr(exc)[:150] if exc else None)
+                continue
+            s, e = spans[n]
+            for qs, qe in ((s - 20, e + 20), (s, e), (s + 1, e + 20)):
+                want = [n] if qs <= s and e <= qe else []
+                res, exc = ctx.call(sub.query_by_position, qs, qe, completely_within=True)
+                got = None if exc is not None else sorted(t.transcript_id for g in res.genes for t in g.transcripts)
+                ctx.check("bin.query-e2e", got == want, key=("sub-collection", "raised" if exc else "value"), centre=c, q=[qs, qe], order=list(order),
+                          isoform=n, got=got, want=want, exc=repr(exc)[:150] if exc else None)
+        # and the collection they were taken from still answers for both isoforms
+        qs, qe = spans["txL"][0] - 10, spans["txR"][1] + 10
+        res, exc = ctx.call(ac.query_by_position, qs, qe, completely_within=True)
+        got = None if exc is not None else sorted(t.transcript_id for g in res.genes for t in g.transcripts)
+        ctx.check("bin.query-e2e", got == ["txL", "txR"], key=("sub-collection", "source-afterwards"), centre=c, q=[qs, qe], got=got, want=["txL", "txR"],
+                  exc=repr(exc)[:150] if exc else None)
+
+
+def _query_big(case, ctx):
+    """A collection of several hundred members (genes and feature collections alternating, 1 kb apart) with 0..2 variant collections in gaps
+    between them: strict and relaxed windows against a brute-force scan of the literal coordinates."""
+    import random
+
+    from inscripta.biocantor.gene import TranscriptInterval, GeneInterval, AnnotationCollection, FeatureInterval, FeatureIntervalCollection
+    from inscripta.biocantor.gene.variants import VariantInterval, VariantIntervalCollection
+    from inscripta.biocantor.location import Strand
+
+    rs = random.Random(case["seed"])
+    n, nvar = case["n"], case["nvar"]
+    spans, genes, fcs = {}, [], []
+    for j in range(n):
+        s = j * 1000 + rs.randrange(50, 300)
+        e = s + rs.randrange(200, 650)
+        name = f"m{j:04d}"
+        spans[name] = (s, e)
+        if j % 2:
+            genes.append(GeneInterval([TranscriptInterval([s], [e], Strand.PLUS)], gene_id=name))
+        else:
+            fcs.append(FeatureIntervalCollection([FeatureInterval([s], [e], Strand.MINUS)], feature_collection_id=name))
+    vcs, vspans = [], {}
+    for v, j in enumerate(sorted(rs.sample(range(n), nvar))):
+        # in the gap in front of member j (members start at j*1000 + 50 at the earliest)
+        p = j * 1000 + rs.randrange(2, 40)
+        vname = f"vc{v}"
+        vspans[vname] = (p, p + 1)
+        vcs.append(VariantIntervalCollection([VariantInterval(p, p + 1, "T", "SNV", variant_name=vname)], variant_collection_name=vname))
+    ac = AnnotationCollection(genes=genes, feature_collections=fcs, variant_collections=vcs or None, start=0, end=n * 1000 + 1000)
+    top = n * 1000 + 999
+    wins = []
+    b17 = 1 << 17
+    for b in (b17, 2 * b17, 3 * b17, 4 * b17, 1 << 19):
+        if b < top:
+            wins += [(max(1, b - 31000), min(top, b - 72)), (max(1, b - 2500), min(top, b + 2500)), (1000, min(top, b + 700))]
+    for _ in range(10):
+        a = rs.randrange(1, top - 10)
+        wins.append((a, min(top, a + rs.choice([900, 5000, 40000, 200000, top]))))
+    wins.append((1, top))
+    ctx.note(("big", n, nvar), klass=f"big-collection-{'over' if n > 500 else 'under'}-500-children-{nvar}-variant-collections")
+    for qs, qe in wins:
+        if qe <= qs:
+            continue
+        for cw in (True, False):
+            res, exc = ctx.call(ac.query_by_position, qs, qe, completely_within=cw)
+            key = ("big-collection", "strict" if cw else "relaxed", f"variant-collections={min(nvar, 1)}", "over-500" if n > 500 else "under-500")
+            if exc is not None:
+                ctx.check("bin.query-e2e", False, key=key + ("raised",), q=[qs, qe], n=n, exc=repr(exc)[:200])
+                continue
+            inside = (lambda s, e: qs <= s and e <= qe) if cw else (lambda s, e: s < qe and qs < e)
+            want = sorted(nm for nm, (s, e) in spans.items() if inside(s, e))
+            got = sorted([g.gene_id for g in res.genes] + [f.feature_collection_id for f in res.feature_collections])
+            wantv = sorted(nm for nm, (s, e) in vspans.items() if inside(s, e))
+            gotv = sorted(v.variant_collection_name for v in (res.variant_collections or []))
+            missing, extra = sorted(set(want) - set(got)), sorted(set(got) - set(want))
+            ctx.check("bin.query-e2e", got == want and gotv == wantv, key=key + ("dropped" if missing else "extra" if extra else "variant-collections",), q=[qs, qe],
+                      n=n, nvar=nvar, n_got=len(got), n_want=len(want), missing=missing[:5], extra=extra[:5], got_variants=gotv, want_variants=wantv)
 
 
 def classify(v):
